@@ -79,6 +79,7 @@ def check(run: Run, prog: Program, model: Model, tier: str) -> None:
         "applied in every order from the empty schema and from a schema with a fixed value, and all orders must "
         "produce the same abstract outcome (rejected on every path, or the same final state, bindings and value "
         "predicates). Enumeration is exhaustive over the extracted automaton.")
+    run.explanation += ' REJECT-KIND: every REJECT/ESCAPE outcome of every (state, well-typed shape) transition is a DeclarationError with no partial operation that may escape on its path.'
     run.rule_text = ("one obligation per (type, start state, set of refinement shapes); all permutations simulated; "
                      "non-trivial = sets of >= 2 shapes whose orders actually accept on at least one path or disagree")
     run.assumptions += ["value predicates depend only on their own argument and the payload prop, which no non-value "
@@ -98,6 +99,35 @@ def check(run: Run, prog: Program, model: Model, tier: str) -> None:
         shapes = [s for s in ta.shapes if s.well_typed and s.method != "__call__"]
         if not shapes:
             raise AnalysisError(f"{tname}: no non-value refinement shapes extracted")
+        # REJECT-KIND: "...or all are rejected with DeclarationError": every rejecting transition of a well-typed shape, in
+        # every state, raises DeclarationError and nothing else can escape on the way (building the message included):
+        # otherwise one order is refused with DeclarationError and another one with whatever escapes
+        from ..partial import escapes
+        for (state, shkey), outs in sorted(ta.trans.items(), key=lambda kv: (sorted(kv[0][0]), kv[0][1])):
+            sh0 = next((x for x in shapes if x.key == shkey), None)
+            if sh0 is None:
+                continue
+            bad_r: List[str] = []
+            nrej = 0
+            for o in outs:
+                if o.kind == "ESCAPE":
+                    bad_r.append(f"{o.exc} escapes (line {o.exc_site})")
+                elif o.kind == "REJECT":
+                    nrej += 1
+                    if o.exc != "DeclarationError":
+                        bad_r.append(f"rejected with {o.exc}")
+                    if o.path is not None:
+                        for e in o.path.events:
+                            if e.kind == "partial":
+                                for x, why in escapes(o.path, e):
+                                    if why != "arity":
+                                        bad_r.append(f"while rejecting, {getattr(x, '__name__', x)} may escape: {why}")
+            c = f"{tname}.{sh0.label} in {{{','.join(sorted(state))}}}: rejection is a DeclarationError"
+            if bad_r:
+                run.violated("REJECT-KIND", c, st.cls.methods[sh0.method].loc, "; ".join(sorted(set(bad_r)))[:300],
+                             witness="one order of the same refinements raises DeclarationError, another one lets a different exception out")
+            elif nrej:
+                run.holds("REJECT-KIND", c, st.cls.methods[sh0.method].loc, f"{nrej} rejecting path(s)", nontrivial=True)
         starts: List[Tuple[str, FrozenSet[str]]] = [("", frozenset())]
         for sh in ta.shapes:
             if sh.method == "__call__" and sh.well_typed:
@@ -137,6 +167,7 @@ def check(run: Run, prog: Program, model: Model, tier: str) -> None:
                         run.violated("SYM", construct, st.cls.loc,
                                      f"order {' -> '.join(a[0])}: {describe(a[1])[:200]}; order {' -> '.join(b[0])}: {describe(b[1])[:200]}",
                                      witness=f"{program(ta, start_label, oa)}  vs  {program(ta, start_label, ob)}")
+    run.floor("REJECT-KIND", 100)
     run.analysed.update({"automaton_states": total_states, "automaton_transitions": total_trans, "refinement_sets": nsets})
     run.extra["states"] = total_states
     run.extra["transitions"] = total_trans
@@ -145,6 +176,8 @@ def check(run: Run, prog: Program, model: Model, tier: str) -> None:
 
 S = "d42/declaration/types/_str_schema.py"
 MUTANTS = [
+    {"name": "len error message built with str.format on a template that embeds repr(schema) (seeded C11-K)", "rule": "REJECT-KIND",
+     "edits": [("d42/declaration/errors/__init__.py", "    message = f\"`{schema!r}` len must be equal to {len(value)}, {length} given\"\n", "    message = (f\"`{schema!r}` \" + \"len must be equal to {expected}, {given} given\").format(expected=len(value), given=length)\n")]},
     {"name": "regex guard forgets max_len (F1 reverted)", "rule": "SYM",
      "edits": [(S, "(self.props.max_len is not Nil) or (self.props.substr is not Nil)", "(self.props.len is not Nil) or (self.props.substr is not Nil)")]},
     {"name": "alphabet loses its pattern guard", "rule": "SYM",
